@@ -32,13 +32,21 @@ def _scal_kwargs(o):
     return kw
 
 
-def _declare(comp, of, wrt, mat, sparse):
+def _declare(comp, of, wrt, mat, sparse, lazy=False):
+    """lazy: declare the pattern only; the values are supplied by compute_partials / linearize"""
     mat = np.atleast_2d(np.asarray(mat, dtype=float))
     if sparse:
         rows, cols = np.nonzero(mat)
         if len(rows) == 0:
             return          # no declared dependence at all
-        comp.declare_partials(of, wrt, rows=rows, cols=cols, val=mat[rows, cols])
+        if lazy:
+            comp.declare_partials(of, wrt, rows=rows, cols=cols)
+            comp._lazy[of, wrt] = mat[rows, cols]
+        else:
+            comp.declare_partials(of, wrt, rows=rows, cols=cols, val=mat[rows, cols])
+    elif lazy:
+        comp.declare_partials(of, wrt)
+        comp._lazy[of, wrt] = mat
     else:
         comp.declare_partials(of, wrt, val=mat)
 
@@ -49,9 +57,11 @@ class AffExp(om.ExplicitComponent):
     def initialize(self):
         self.options.declare('cs', types=dict)
         self.options.declare('use_mf', types=bool, default=False)
+        self.options.declare('lazy', types=bool, default=False)
 
     def setup(self):
         cs = self.options['cs']
+        self._lazy = {}
         for i in cs['ins']:
             self.add_input(i['name'], val=np.ones(i['size']) if i['val'] is None else fl(i['val']),
                            units=i['units'])
@@ -65,7 +75,11 @@ class AffExp(om.ExplicitComponent):
         if self.options['use_mf']:
             return
         for (o, i), A in self._A.items():
-            _declare(self, o, i, A, self.options['cs']['sparse'])
+            _declare(self, o, i, A, self.options['cs']['sparse'], self.options['lazy'])
+
+    def compute_partials(self, inputs, partials):
+        for key, val in self._lazy.items():
+            partials[key] = val
 
     def compute(self, inputs, outputs):
         cs = self.options['cs']
@@ -92,9 +106,11 @@ class AffImp(om.ImplicitComponent):
     def initialize(self):
         self.options.declare('cs', types=dict)
         self.options.declare('use_mf', types=bool, default=False)
+        self.options.declare('lazy', types=bool, default=False)
 
     def setup(self):
         cs = self.options['cs']
+        self._lazy = {}
         for i in cs['ins']:
             self.add_input(i['name'], val=np.ones(i['size']) if i['val'] is None else fl(i['val']),
                            units=i['units'])
@@ -119,9 +135,13 @@ class AffImp(om.ImplicitComponent):
             return
         sp = self.options['cs']['sparse']
         for (o, k), A in self._Ay.items():
-            _declare(self, o, k, A, sp)
+            _declare(self, o, k, A, sp, self.options['lazy'])
         for (o, i), B in self._Bx.items():
-            _declare(self, o, i, B, sp)
+            _declare(self, o, i, B, sp, self.options['lazy'])
+
+    def linearize(self, inputs, outputs, partials):
+        for key, val in self._lazy.items():
+            partials[key] = val
 
     def apply_nonlinear(self, inputs, outputs, residuals):
         cs = self.options['cs']
@@ -220,6 +240,7 @@ def build(spec, cfg):
     comps = spec['comps']
     jac = cfg.get('jac') if cfg.get('lin', 'direct') not in BLOCK else None
     use_mf = jac is None and cfg.get('mf', True)
+    # (a matrix-free component cannot live under an assembled jacobian: OpenMDAO rejects that)
     cyc = set(sg.groups_with_cycles(spec))
     lin = cfg.get('lin', 'direct')
 
@@ -248,14 +269,15 @@ def build(spec, cfg):
 
     def make_comp(c):
         mf = use_mf and c['mf']
+        lazy = bool(cfg.get('lazy')) and not mf
         if c['kind'] == 'ivc':
             comp = om.IndepVarComp()
             for o in c['outs']:
                 comp.add_output(o['name'], val=fl(o['val']), units=o['units'], **_scal_kwargs(o))
         elif c['kind'] == 'exp':
-            comp = (AffExpMF if mf else AffExp)(cs=c, use_mf=mf)
+            comp = (AffExpMF if mf else AffExp)(cs=c, use_mf=mf, lazy=lazy)
         else:
-            comp = (AffImpMF if mf else AffImp)(cs=c, use_mf=mf)
+            comp = (AffImpMF if mf else AffImp)(cs=c, use_mf=mf, lazy=lazy)
         L = len(c['path'].split('.'))
         for o in c['outs']:
             if o.get('sso') and o['sso']['level'] == L:
@@ -332,7 +354,8 @@ def build(spec, cfg):
         # absolute unit step has no truncation error and, on the dyadic data, no rounding error either)
         inside = [ci for ci, c in enumerate(comps) if c['path'].split('.')[:1] == gpath.split('.')]
         dv_inside = any('out' in d and d['comp'] in inside for d in spec['desvars'])   # OpenMDAO rejects these
-        if cfg.get('approx') and glen == 1 and not is_cyc and not assemble and not dv_inside and \
+        if cfg.get('approx') and glen == 1 and not is_cyc and (not assemble or cfg.get('approx_any')) and \
+                not dv_inside and \
                 any(comps[ci]['kind'] != 'ivc' for ci in inside):
             g.approx_totals(method='fd', step=1.0, form='forward', step_calc='abs')
         if is_cyc:
